@@ -371,15 +371,20 @@ def run(ctx):
                     "Go race detector (happens-before, -race builds of the workloads)"]
     ctx.assumptions += [
         "executions respect the extracted table: each access of a tracked field is an instance of one of its rows and the mutex "
-        "instance held is the one guarding that object (instance association is not checked)",
+        "instance held is the one guarding that object (checked on the recorded executions only, by check_trace)",
         "init rows: constructor code before the first go statement is modelled as preceding the first Fork of the trace",
-        "sync.RWMutex read sections are modelled as exclusive sections (currentNATType): overlapping readers are outside the theorem",
+        "recorded traces (one schedule each): acquisition logged after Lock returns, release before Unlock, access just before its statement; "
+        "goroutines started by code that is not instrumented get their Fork at their first event; inst(x, lock name) chosen from what the "
+        "accessing thread holds and verified by the extracted checker at every access",
+        "captured locals: `needs-dynamic` = a channel operation / Wait / select / Once stands where it could order the pair; not proved that it does",
         "fields disciplined by goroutine confinement or channel hand-off are not in the table: only the -race runs observe them",
     ]
     ctx.extra["rule"] = ("evaluations = rows of the access table extracted from the repo's working tree (each row is one access site "
-                         "checked by discipline_ok inside Coq) + runs of -race workloads (workload x seed); distinct = distinct rows / runs")
-    ctx.extra["explanation"] = ("lockset theorem over all traces (Coq) + static access table regenerated from the source and checked by "
-                                "vm_compute + Go race detector on in-package workloads; no executable-model correspondence for this property")
+                         "checked by discipline_ok inside Coq) + captured-local verdicts + recorded traces run through the extracted "
+                         "check_trace (one case per package) + runs of -race workloads (workload x seed); distinct = distinct rows / cases / runs")
+    ctx.extra["explanation"] = ("lockset theorem over all traces with read/write lock modes (Coq) + static access table regenerated from the source "
+                                "and checked by vm_compute + recorded executions of instrumented builds checked by the extracted, proved-sound "
+                                "check_trace + Go race detector on in-package and whole-component workloads")
     rows = table_leg(ctx)
     # the two dynamic legs are independent of each other: recorded traces next to the race workloads
     with concurrent.futures.ThreadPoolExecutor(max_workers=1) as ex:
